@@ -224,6 +224,54 @@ def run(ck: Check):
             if src.get(s) not in ("SOURCE_SERVER", "SOURCE_BOTH"):
                 ck.violation(f"direction-subscribed:{name}:{s}", f"{name} subscribes to {s}, which api.proto marks {src.get(s)}",
                              {"entry_point": name, "message": s, "source": src.get(s)})
+    # --- the voice-assistant subscription with a start handler that is still RUNNING when things happen (the sweep above only
+    # sees handlers that return at once): whatever it writes then - on unsubscribe, on stop, on the handler's return - is
+    # client- or both-originated
+    import simnet
+    from aioesphomeapi import api_pb2 as _pb
+    id2name = {v: k for k, v in st["text_ids"].items()} if "text_ids" in st else None
+    if id2name is None:
+        import prototext
+        msgs, _ = prototext.load(REPO)
+        id2name = {m["id"]: m["name"] for m in msgs if m.get("id")}
+    for then in ("unsub", "stop-request", "handler-returns", "handler-returns-none", "second-start"):
+        net, client, conn, _stops = simnet.established(keepalive=100000.0)
+        loop = net.loop
+        futs = []
+
+        async def handle_start(conv, flags, audio, wake, futs=futs, loop=loop):
+            f = loop.create_future()
+            futs.append(f)
+            return await f
+
+        async def handle_stop(aborted):
+            pass
+
+        unsub = client.subscribe_voice_assistant(handle_start=handle_start, handle_stop=handle_stop)
+        net.send(_pb.VoiceAssistantRequest(start=True, conversation_id="c"))
+        loop.run_idle()
+        before = len(net.written())
+        if then == "unsub":
+            unsub()
+        elif then == "stop-request":
+            net.send(_pb.VoiceAssistantRequest(start=False))
+        elif then == "second-start":
+            net.send(_pb.VoiceAssistantRequest(start=True, conversation_id="d"))
+        elif futs:
+            futs[0].set_result(6055 if then == "handler-returns" else None)
+        for _ in range(3):
+            loop.run_idle()
+        n_eval += 1
+        for _t, ty, _p in net.written()[before:]:
+            nm = id2name.get(ty, f"<undeclared id {ty}>")
+            if src.get(nm) not in ("SOURCE_CLIENT", "SOURCE_BOTH"):
+                ck.violation(f"direction-sent:voice-assistant:{then}:{nm}", f"subscribe_voice_assistant with a start handler still running, then "
+                             f"{then}: the client wrote {nm}, which api.proto marks {src.get(nm)}", {"then": then, "message": nm})
+        import asyncio as _a
+        for t in _a.all_tasks(loop):
+            t.cancel()
+        loop.run_idle()
+        net.close()
     ck.coverage.update({
         "evaluations": n_eval,
         "distinct_nontrivial": n_eval,
